@@ -114,6 +114,9 @@ Inductive event :=
 | ENet (m : option msg)          (* IncomingNetworkMessage; None = the buffer does not decode *)
 | EFetched (f : fetched)         (* BlockFetched *)
 | EFetchFailed
+| EInvalid (d : N)               (* the consensus thread judged d blocks fetched earlier from this peer invalid
+                                    (Blockchain::add_blocks_from_mempool, FailedNotValid): deferred verdicts on
+                                    blocks that were parked when they arrived; taken from the run *)
 | ETick (dt : N).                (* RoutingThread::process_timer_event *)
 
 Inductive outcome :=
@@ -250,6 +253,13 @@ Definition step (st : state) (now idx : N) (e : event) : state * outcome :=
             (put st idx (set_inv (mkLim (l_limit l) (l_window l) (l_count l + d) (l_last l)) p1), OOk)
       end
   | EFetchFailed => (st, OReject)
+  | EInvalid d =>
+      match aget idx (peers st) with
+      | None => (st, OOk)
+      | Some p =>
+          let l := p_inv p in
+          (put st idx (set_inv (mkLim (l_limit l) (l_window l) (l_count l + d) (l_last l)) p), OOk)
+      end
   | ETick dt =>
       let rt := removal_timer st + dt in
       let ps1 := if 5000 <=? rt then purge now (peers st) else peers st in
